@@ -3,7 +3,7 @@ from props import matcher_common as mc
 
 NAMESPACE = 'C11'
 LEAN_TARGETS = ['MxV.Props.C11', 'MxV.Props.Slotted', 'MxV.Tables.D_witnesses_C11']
-THEOREMS = ['C11_rebuild', 'C11_tame', 'Slotted.C11_slotted', 'fails_on_wild_models']
+THEOREMS = ['C11_rebuild', 'C11_tame', 'attr_set_then_remove', 'Slotted.C11_slotted', 'fails_on_wild_models']
 TRUSTED_BASE = ['Lean 4.33.0 kernel', 'axioms: propext, Quot.sound, Classical.choice only (audited per theorem)',
                 'translator extract/*.py (templates regenerated every run)',
                 'correspondence harness (real library vs Mfull on all 94 types, vs Msimple on the 68 Tame types)']
